@@ -4,7 +4,8 @@ import "time"
 
 func init() {
 	plans["C29"] = Plan{Pkg: pkg("C29"), Steps: []Step{
-		{Run: "TestAttack", Quick: 720, Thorough: 24000, QShards: 12, TShards: 16, MemMB: 8192, QTimeout: 8 * time.Minute, TTimeout: 60 * time.Minute},
+		{Run: "TestAttack", Quick: 400, Thorough: 12000, QShards: 8, TShards: 16, MemMB: 8192, QTimeout: 8 * time.Minute, TTimeout: 60 * time.Minute},
+		{Run: "TestRegressionCases", Kind: "test", ReplayRun: "TestAttack", QTimeout: 4 * time.Minute, TTimeout: 4 * time.Minute},
 		{Run: "TestNonReader", Kind: "test", QTimeout: 4 * time.Minute, TTimeout: 4 * time.Minute},
 	}}
 }
